@@ -138,6 +138,10 @@ def chunkLoop {Îº : Type u} (C : Container Îº) (s f : Nat) : Nat â†’ CState Îº â
   | 0, x => x
   | fuel + 1, x => if x.remaining = 0 then x else chunkLoop C s f fuel (chunkIter C s f x)
 
+/-- `Vec::with_capacity(timesteps / sampling_freq)` is evaluated once per replica before the loop:
+sampling period 0 panics (division by zero) as soon as there is a replica. -/
+def chunkPanics (nrep f : Nat) : Bool := f == 0 && decide (0 < nrep)
+
 def chunkInit {Îº : Type u} (T s f : Nat) (c0 : Îº) : CState Îº :=
   { c := c0, remaining := T, toSwap := s, toSample := f, energyAcc := fun _ => 0, samples := [], log := [] }
 
